@@ -1263,6 +1263,18 @@ class Engine(object):
     self._gone_columns.append(col_obj)
 
 
+  def discard_pending_trigger_recalcs(self):
+    """
+    Forget that data columns with trigger formulas are waiting to be recalculated. This is for
+    after replaying doc actions that already say what these columns hold (a revert, undo, redo):
+    the cells that trigger formulas depend on change in the replay, but it is not an edit.
+    """
+    for node in list(self.recompute_map):
+      table = self.tables.get(node.table_id)
+      col = table.all_columns.get(node.col_id) if table else None
+      if col is not None and not col.is_formula():
+        self.recompute_map.pop(node)
+
   def new_column_name(self, table):
     """
     Invalidate anything that referenced unknown columns, in case the newly-added name fixes the
@@ -1351,11 +1363,7 @@ class Engine(object):
       # settled before this call and their values have just been restored, so the revert must not
       # count as a change that fires them.
       try:
-        for node in list(self.recompute_map):
-          table = self.tables.get(node.table_id)
-          col = table.all_columns.get(node.col_id) if table else None
-          if col is not None and not col.is_formula():
-            self.recompute_map.pop(node)
+        self.discard_pending_trigger_recalcs()
         self._bring_all_up_to_date()
       except Exception:
         log.error("Error recomputing after revert on failure: %s", traceback.format_exc())
